@@ -252,6 +252,9 @@ def const(name):
     return intlit(ms[0])
 
 
+ENUM_VALUES = {}
+
+
 def enum(name, wanted, prefix):
     m = re.search(r"pub enum %s \{" % name, code)
     if not m:
@@ -271,7 +274,9 @@ def enum(name, wanted, prefix):
         if w not in vals:
             die("enum %s: variant %s missing" % (name, w))
         out.append("Definition %s%s : Z := %d." % (prefix, w, vals[w]))
+    ENUM_VALUES[name] = dict(vals)
     return out
+
 
 
 lines.append("Definition MINIDUMP_SIGNATURE : Z := %d." % const("MINIDUMP_SIGNATURE"))
@@ -284,6 +289,14 @@ lines += enum("MINIDUMP_STREAM_TYPE", ["UnusedStream", "ThreadListStream", "Modu
                                       "BreakpadInfoStream", "AssertionInfoStream", "LinuxCpuInfo", "LinuxProcStatus", "LinuxLsbRelease",
                                       "LinuxCmdLine", "LinuxEnviron", "LinuxAuxv", "LinuxMaps", "LinuxDsoDebug", "CrashpadInfoStream",
                                       "MozMacosCrashInfoStream", "MozMacosBootargsStream", "MozLinuxLimits", "MozSoftErrors"], "ST_")
+# every value MINIDUMP_STREAM_TYPE names (what `from_u32` accepts), in declaration order; the enum must derive FromPrimitive
+if not re.search(r"#\[derive\([^)]*FromPrimitive[^)]*\)\]\s*pub enum MINIDUMP_STREAM_TYPE", code):
+    die("MINIDUMP_STREAM_TYPE no longer derives FromPrimitive (from_u32 = membership in the declared values)")
+_st = ENUM_VALUES["MINIDUMP_STREAM_TYPE"]
+if len(set(_st.values())) != len(_st):
+    die("MINIDUMP_STREAM_TYPE: two variants share a value")
+lines.append("Definition ST_LastReservedStream : Z := %d." % _st["LastReservedStream"])
+lines.append("Definition ST_ALL_NAMED : list Z := [%s]." % "; ".join(str(v) for v in _st.values()))
 m = re.search(r"pub struct ContextFlagsCpu: u32 \{(.*?)\n    \}", code, re.S)
 if not m:
     die("ContextFlagsCpu")
